@@ -38,7 +38,7 @@ namespace {
 enum { CFG, CONS, SEND, ENABLE, DISABLE, CONNECT, PREAD, PAUTO, IDLE, PWRITE, PSHUT, DISC, THR, SHRINK, BUFSZ, CBSEND, PEEK, NOPS };
 const std::vector<const char*> kOpNames = {"cfg", "cons", "send", "enable", "disable", "connect", "pread", "pauto", "idle", "pwrite",
                                            "pshut", "disc", "thr", "shrink", "bufsz", "cbsend", "peek"};
-const std::vector<int> kOpArity = {8, 2, 3, 0, 0, 0, 2, 2, 1, 3, 2, 2, 2, 2, 3, 3, 1};
+const std::vector<int> kOpArity = {8, 2, 3, 0, 1, 0, 2, 2, 1, 3, 2, 2, 2, 2, 3, 3, 2};
 
 // per-case caps (keep every case far below the watchdog)
 const uint64_t kBudgetOut = 3u << 20;       // bytes handed to send() per case (all connections)
@@ -118,7 +118,7 @@ const std::string &scratch_dir() {
 }
 
 // ---- model ------------------------------------------------------------------------------------------
-struct Act { int where; int kind; size_t n; };   // where: 1 receive cb, 2 send-complete cb, 3 closed cb; kind: 0 send, 1 disconnect, 2 shrink recv, 3 shrink send
+struct Act { int where; int kind; size_t n; };   // where: 1 receive cb, 2 send-complete cb, 3 closed cb; kind: 0 send, 1 disconnect, 2 shrink recv, 3 shrink send, 4 disable
 
 struct Conn {
   int idx = 0;
@@ -151,6 +151,7 @@ struct Conn {
   bool peer_shut = false, peer_closed = false;
   int close_reports = 0;
   bool err_seen = false;
+  bool bound = false;                // bfd: bind(self) — everything received is sent back, no receive callbacks
   std::vector<Act> acts;
 };
 
@@ -213,7 +214,8 @@ struct Engine {
       ssize_t r = ::read(c.prd, rbuf.data(), want);
       if (r > 0) {
         progress = true;
-        if (c.out_got + (uint64_t)r > c.out_acc) { fail(tag(c) + "the peer received " + std::to_string(c.out_got + r) + " bytes, send() accepted only " + std::to_string(c.out_acc) + " (bytes duplicated or invented)"); }
+        uint64_t lim = c.bound ? c.in_wrote : c.out_acc;
+        if (c.out_got + (uint64_t)r > lim) { fail(tag(c) + "the peer received " + std::to_string(c.out_got + r) + " bytes, " + (c.bound ? "it wrote only " : "send() accepted only ") + std::to_string(lim) + " (bytes duplicated or invented)"); }
         ssize_t k = mismatch(c.osalt, c.out_got, rbuf.data(), (size_t)r);
         if (k >= 0) fail(tag(c) + "byte " + std::to_string(c.out_got + k) + " of the stream received by the peer is not the byte that was sent at that offset (" + std::to_string(c.out_acc) + " accepted so far; " + locate(c.osalt, rbuf.data() + k, (size_t)r - k, c.out_acc) + ")");
         c.out_got += (uint64_t)r; total += (size_t)r;
@@ -251,12 +253,14 @@ struct Engine {
       if (c.tbox_gone) break;
       if (a.kind == 0) { do_send(c, a.n, true); c_cb_send = true; }
       else if (a.kind == 1) { ep_disconnect(c, true); c_disc_in_cb = true; }
+      else if (a.kind == 4) op_disable();
       else ep_shrink(c, a.kind - 2);
     }
   }
 
   void on_recv(Conn &c, Buffer &b) {
     progress = true;
+    if (c.bound) { fail(tag(c) + "receive callback called although a receiver is bound"); return; }
     c.recv_calls++;
     size_t R = b.readableSize();
     if (c.in_cons + R > c.in_wrote) fail(tag(c) + "receive callback " + std::to_string(c.recv_calls) + " presents stream bytes up to offset " + std::to_string(c.in_cons + R) + ", the peer wrote only " + std::to_string(c.in_wrote) + " (bytes duplicated or invented)");
@@ -294,7 +298,7 @@ struct Engine {
     c.sc_calls++;
     uint64_t acc = c.out_acc;
     c.acc_at_last_sc = acc;
-    if (c.prd >= 0 && !c.peer_closed && !c.tbox_gone) {
+    if (c.prd >= 0 && !c.peer_closed && !c.tbox_gone && !c.bound) {
       bool drain = sc_mode == 0;
       if (c.inet) {            // loopback TCP: what was written is not instantly readable by the peer; wait for it (bounded, real time)
         drain = true;
@@ -315,7 +319,7 @@ struct Engine {
     if (c.close_reports > 1) fail(tag(c) + "peer close reported " + std::to_string(c.close_reports) + " times (" + how + ")");
     if (!c.peer_shut && !c.peer_closed) fail(tag(c) + std::string("peer close reported (") + how + ") although the peer neither closed nor shut down its sending side");
     if (c.in_cons < c.in_wrote) c_close_pending_in = true;
-    if (c.close_reports == 1 && !c.tbox_gone) {
+    if (c.close_reports == 1 && !c.tbox_gone && !c.bound) {
       if (rb) {
         size_t R = rb->readableSize();
         if (c.in_cons + R != c.in_wrote)
@@ -383,7 +387,9 @@ struct Engine {
     switch (op.code) {
       case SEND: { Conn *c = pick_for_send(op); if (!c) break; do_send(*c, send_size(*c, (int)op.in(1, 0, 4), (size_t)op.in(2, 1, 1 << 20)), false); break; }
       case ENABLE: op_enable(); break;
-      case DISABLE: op_disable(); break;
+      case DISABLE: { int where = (int)op.in(0, 0, 2); Conn *c = conns.empty() ? nullptr : conns[0].get();
+        if (where == 0 || !c || std::string(sub) != "bfd") op_disable(); else if (c->tbox_up && !c->tbox_gone) c->acts.push_back({where, 4, 0});
+        break; }
       case CONNECT: op_connect(); break;
       case PREAD: { Conn *c = pick(op); if (c) peer_read(*c, (size_t)op.in(1, 1, 1 << 20)); break; }
       case PAUTO: { Conn *c = pick(op); if (c) { int64_t k = op.in(1, 0, 70000); c->auto_read = k > 65536 ? SIZE_MAX : (size_t)k; } break; }
@@ -419,10 +425,11 @@ struct Engine {
       case CBSEND: { Conn *c = pick_for_send(op); if (!c || !c->tbox_up || c->tbox_gone) break;
         c->acts.push_back({(int)op.in(1, 1, 3), 0, (size_t)op.in(2, 1, 70000)}); break; }
       case PEEK: { Conn *c = pick(op); if (!c || !c->tbox_up || c->tbox_gone) break;
-        Buffer *rb = ep_rbuf(*c); if (!rb) break;
+        Buffer *rb = ep_rbuf(*c); if (!rb || c->bound) break;
         size_t R = rb->readableSize();
         if (c->in_cons + R > c->in_wrote) fail(tag(*c) + "receive buffer holds stream bytes up to offset " + std::to_string(c->in_cons + R) + ", the peer wrote only " + std::to_string(c->in_wrote));
         else if (R && mismatch(c->isalt, c->in_cons, rb->readableBegin(), R) >= 0) fail(tag(*c) + "receive buffer content (looked at between two loop passes) is not the unconsumed part of the stream");
+        else if (!c->bound) { size_t k = std::min((size_t)op.in(1, 0, 3000), R); if (k) { rb->hasRead(k); c->in_cons += k; c->left_unconsumed = k < R; } }   // the user may also consume between callbacks (getReceiveBuffer "for use on the spot")
         break; }
       default: break;   // cfg / cons are definitions
     }
@@ -435,6 +442,10 @@ struct Engine {
       fail(tag(c) + "the peer " + (c.peer_closed ? "closed" : "shut down its sending side") + ", the tbox side was enabled and idle at the end, but the close was never reported");
     if (c.close_reports) return;                  // the connection ended with the peer's close; checked in on_closed
     if (c.peer_shut || c.peer_closed) return;
+    if (c.bound) {
+      if (c.out_got != c.in_wrote) fail(tag(c) + "bound to itself: the peer wrote " + std::to_string(c.in_wrote) + " bytes and got " + std::to_string(c.out_got) + " back");
+      return;
+    }
     if (c.can_write && c.prd >= 0) {
       if (c.out_got != c.out_acc)
         fail(tag(c) + "send() accepted " + std::to_string(c.out_acc) + " bytes, the peer read until nothing more arrived and got only " + std::to_string(c.out_got) + " (neither side closed; " + std::to_string(c.sc_calls) + " send-complete notifications)");
@@ -499,7 +510,11 @@ struct Engine {
   std::string run() {
     static bool once = [] { signal(SIGPIPE, SIG_IGN); return true; }();
     (void)once;
-    if (!setup()) { teardown(); for (auto &c : conns) peer_close_fds(*c); return err.empty() ? std::string("INFRA: ") + sub + " setup failed" : err; }
+    if (!setup()) {
+      teardown(); for (auto &c : conns) peer_close_fds(*c);
+      if (err.empty() || err.compare(0, 6, "INFRA:") == 0) { stats().counters["infra_skipped_case"]++; info.cls("skipped_infrastructure"); return ""; }   // e.g. no free loopback port
+      return err;
+    }
     vloop::drive(loop.get(), [this](int p) { return step(p); });
     bool nt = c_partial || c_eagain || c_before_enable || c_leftover_more;
     info.nontrivial = nt;
@@ -564,6 +579,11 @@ struct BfdEngine : Engine {
     bfd->setReadErrorCallback([this](int) { c_err = true; peer_gone("read-error callback"); });
     bfd->setWriteErrorCallback([this](int e) { c_err = true; progress = true; if (e != EAGAIN && bfd) { c->err_seen = true; bfd->disable(); c->running = false; } });
     c->tbox_up = true;
+    if (transport == 0 && cfgv(7, 0, 6) == 6) {      // echo: the descriptor is its own receiver (ByteStream::bind)
+      c->bound = true; c->osalt = c->isalt; c->can_write = false;
+      bfd->bind(bfd);
+      info.cls("bound_to_itself");
+    }
     return true;
   }
   // the one in-tree user of the read-zero callback (TcpConnection) disables the descriptor inside the callback; so does the harness
@@ -711,6 +731,16 @@ struct ServerEngine : Engine {
     srv_thr = t;
     srv->setReceiveCallback([this](const TcpServer::ConnToken &tk, Buffer &b) { Conn *c = by_token(tk); if (!c) { fail("server: receive callback for an unknown connection token"); return; } on_recv(*c, b); }, t);
   }
+  // DISABLE / ENABLE = stop() (disconnects every client, keeps the listening socket) / start() (accepts what queued up meanwhile)
+  void op_disable() override {
+    if (!srv || srv->state() != TcpServer::State::kRunning) return;
+    srv->stop(); c_disc = true;
+    for (auto &c : conns) if (c->tbox_up && !c->tbox_gone) { c->tbox_gone = true; c->running = false; c->tfd = -1; }
+    if (srv->state() != TcpServer::State::kInited) fail("server: state after stop() is not kInited");
+    info.cls("server_stop");
+  }
+  void op_enable() override { if (srv && srv->state() == TcpServer::State::kInited && !srv->start()) fail("server: start() after stop() failed"); }
+  void before_drain() override { op_enable(); }
   void teardown() override { if (srv) { srv->cleanup(); srv.reset(); for (auto &c : conns) c->tbox_gone = true; } }
 };
 
@@ -857,11 +887,12 @@ rc::Gen<Scenario> make_gen(int kind) {   // 0 bfd, 1 server, 2 client
     {2, mkop(THR, {conn, rc::gen::weightedOneOf<int64_t>({{3, range(0, 40)}, {2, range(41, 5000)}})})},
     {1, mkop(BUFSZ, {conn, range(0, 1), range(0, 3)})},
     {2, mkop(CBSEND, {conn, range(1, 3), size_gen()})},
-    {1, mkop(PEEK, {conn})},
+    {1, mkop(PEEK, {conn, rc::gen::weightedOneOf<int64_t>({{2, rc::gen::just<int64_t>(0)}, {1, range(1, 3000)}})})},
   });
-  auto special = kind == 0 ? rc::gen::weightedOneOf<Op>({{4, mkop(ENABLE, {})}, {2, mkop(DISABLE, {})}, {1, mkop(SHRINK, {conn, range(0, 3)})}})
-                           : mkop(CONNECT, {});
-  return scenarioOf(head, opsOf(rc::gen::weightedOneOf<Op>({{37, common}, {(size_t)(kind == 0 ? 7 : 2), special}})));
+  auto special = kind == 0 ? rc::gen::weightedOneOf<Op>({{4, mkop(ENABLE, {})}, {2, mkop(DISABLE, {rc::gen::weightedOneOf<int64_t>({{3, rc::gen::just<int64_t>(0)}, {1, range(1, 2)}})})}, {1, mkop(SHRINK, {conn, range(0, 3)})}})
+                           : kind == 1 ? rc::gen::weightedOneOf<Op>({{6, mkop(CONNECT, {})}, {1, mkop(DISABLE, {rc::gen::just<int64_t>(0)})}, {2, mkop(ENABLE, {})}})
+                                       : mkop(CONNECT, {});
+  return scenarioOf(head, opsOf(rc::gen::weightedOneOf<Op>({{37, common}, {(size_t)(kind == 0 ? 7 : kind == 1 ? 3 : 2), special}})));
 }
 #endif
 
